@@ -285,20 +285,6 @@ def f_literal_with_pyformat_placeholder(prog, idxs, ctx):
     return False
 
 
-def f_mssql_offset_in_subquery(prog, idxs, ctx):
-    """slice_head with an offset that ends up inside a subquery (an alias() follows it)."""
-    seen_offset = False
-    for i in idxs:
-        st = prog["steps"][i]
-        if st["verb"] == "slice_head" and st.get("offset", 0) > 0:
-            seen_offset = True
-        if seen_offset and st["verb"] == "alias":
-            return True
-        if seen_offset and st["verb"] == "mutate" and any(not has_col(e) for _n, e in st["kw"]):
-            return True  # the dummy ORDER BY column may be a constant (constants are not rendered in ORDER BY)
-    return False
-
-
 def f_sqlite_case_of_temporal_literals(prog, idxs, ctx):
     """A case expression (when/then or map) all of whose branch values are date / datetime literals."""
     for i in idxs:
@@ -328,7 +314,6 @@ def f_null_typed_expression(prog, idxs, ctx):
 FEATURES = {
     "null_typed_expression": f_null_typed_expression,
     "sqlite_case_of_temporal_literals": f_sqlite_case_of_temporal_literals,
-    "mssql_offset_in_subquery": f_mssql_offset_in_subquery,
     "literal_with_pyformat_placeholder": f_literal_with_pyformat_placeholder,
     "sqlite_date_to_datetime_compared": f_sqlite_date_to_datetime_compared,
     "group_by_constant_column": f_group_by_constant_column,
